@@ -7,7 +7,12 @@ import Blue.Driver.Util
 
     state and bounds as for `kvs scan`; script tokens: `F` `L` `N` `P` `S<hex>` (calls on the held
     cursor), `w:<ents>` (entries a later write inserted into the captured memtable), `e:<label>`
-    (anything else the store did meanwhile).  Output: the entry shown after each call. -/
+    (anything else the store did meanwhile).  Output: the entry shown after each call.
+
+    `snap open <state, ts = last assigned sequence number> :: <numbers in flight|-> :: <lo> <hi> :: <script>`
+
+    the same for a scan opened while writes are in flight: the model computes the read timestamp
+    (`Blue.Snap.readTs`) from the numbers of the writes that have not left the wait list. -/
 namespace Blue.Driver.C07
 open Blue.Driver Blue.Driver.C01 Blue.Spec Blue.Snap
 
@@ -34,8 +39,29 @@ def toTok (keys : List (List Nat)) : RawTok → Option (Tok Nat)
   | .write es => some (.write (vers keys es))
   | .other => some .other
 
+def parseInflight (s : String) : Option (List Nat) :=
+  if s = "-" then some [] else allSome ((s.splitOn ",").map String.toNat?)
+
 def handle (toks : List String) : String :=
   match toks with
+  | "open" :: rest =>
+    -- snap open <state, ts = last assigned number> :: <numbers in flight> :: <lo> <hi> :: <script>
+    let (st, r1) := splitAtSep rest
+    let (inf, r2) := splitAtSep r1
+    let (bs, script) := splitAtSep r2
+    match parseState st, inf, bs, allSome (script.map parseTok) with
+    | some s, [infs], [lo, hi], some raw =>
+      let keys := allKeys s (boundKeys lo ++ boundKeys hi ++ raw.flatMap tokKeys)
+      match parseInflight infs, parseBound keys lo, parseBound keys hi, allSome (raw.map (toTok keys)) with
+      | some inflight, some sb, some eb, some prog =>
+        let written : List RawEnt := raw.flatMap fun t => match t with | .write es => es | _ => []
+        let sAll : RawState := { s with mem := s.mem ++ written }
+        let h : Held Nat := openAt s.ts inflight (vers keys s.mem)
+          (vers keys ((s.imm.getD []) ++ s.files.flatMap (·.ents)))
+        let out := run Nat.blt (isTomb sAll keys) sb eb h prog
+        if out.isEmpty then "-" else " ".intercalate (out.map (renderEntry sAll keys))
+      | _, _, _, _ => "bad-op"
+    | _, _, _, _ => "bad-op"
   | "run" :: rest =>
     let (st, r1) := splitAtSep rest
     let (bs, script) := splitAtSep r1
